@@ -103,6 +103,11 @@ func VX_C18_plain() {
 	cs := vx.ParamBool("cs")
 	pre, post := vx.ParamBool("pre"), vx.ParamBool("post")
 	np, nc, kinds := vx.ParamInt("np"), vx.ParamInt("nc"), vx.ParamInt("kinds")
+	if vx.HasParam("runes") && vx.ParamStr("runes") == "fold" {
+		// code points that are their own upper case but fold onto another letter (simple case folding
+		// is coarser than equality after upper-casing), next to the letters they fold onto
+		vxRunes = []rune{0x212A, 'k', 0x2126, 'ω', 0x1E9E, 'ß', 0x212B, 'å', 'K'}
+	}
 	pr := make([]vxRune, np)
 	for k := range pr {
 		pr[k] = vxPick(kinds)
